@@ -1151,8 +1151,8 @@ def run(ctx):
             ctx.error(key, "length / item sources not recognised (len of %s; items from %s)" % (lens, sorted(items)))
             continue
         L = lens[0]
-        if L == "self":
-            ctx.ok("R14.7", key, nontrivial=False)
+        if L in ("self", "list(self)", "tuple(self)") or L.replace(" ", "") in ("[xforxinself]",):
+            ctx.ok("R14.7", key, nontrivial=False)     # the length of what iteration yields: consistent by construction
             continue
         if all(x == L for x in items):
             ctx.ok("R14.7", key, sample={"collection": c.name, "list": L})
